@@ -7,6 +7,8 @@ use casbin::{DefaultRoleManager, RoleManager};
 pub struct World {
     pub rt: tokio::runtime::Runtime,
     pub rm: Option<DefaultRoleManager>,
+    /// a role manager with matching functions installed (`prm.*` ops)
+    pub prm: Option<DefaultRoleManager>,
     pub ew: crate::enf::EnfWorld,
 }
 
@@ -19,6 +21,7 @@ impl World {
         World {
             rt: tokio::runtime::Builder::new_current_thread().enable_all().build().unwrap(),
             rm: None,
+            prm: None,
             ew: crate::enf::EnfWorld::new(),
         }
     }
@@ -138,6 +141,40 @@ impl World {
             "eff.raw" => {
                 let cap: usize = f[2].parse().unwrap();
                 crate::c02::run_impl(&unesc(f[1]), cap, &crate::c02::seq_of(f[3]))
+            }
+            "prm.new" | "prm.fn" => {
+                // role manager as written, with a role- and / or a domain-matching function (`-` = none)
+                let pick = |n: &str| -> Option<casbin::MatchingFn> { match n { "keyMatch" => Some(casbin::function_map::key_match), "keyMatch2" => Some(casbin::function_map::key_match2), _ => None } };
+                if f[0] == "prm.new" {
+                    let mut rm = DefaultRoleManager::new(f[1].parse().unwrap());
+                    rm.matching_fn(pick(f[2]), pick(f[3]));
+                    self.prm = Some(rm);
+                } else {
+                    match self.prm.as_mut() { Some(rm) => rm.matching_fn(pick(f[1]), pick(f[2])), None => return "no-rm".into() }
+                }
+                "ok".into()
+            }
+            "prm.add" | "prm.del" | "prm.clear" | "prm.has" | "prm.roles" | "prm.users" | "prm.snap" => {
+                let rm = match self.prm.as_mut() { Some(r) => r, None => return "no-rm".into() };
+                let r = catch(|| match f[0] {
+                    "prm.add" => { let d = dom_opt(f[3]); rm.add_link(&unesc(f[1]), &unesc(f[2]), d.as_deref()); "ok".to_string() }
+                    "prm.del" => {
+                        let d = dom_opt(f[3]);
+                        match rm.delete_link(&unesc(f[1]), &unesc(f[2]), d.as_deref()) { Ok(()) => "ok".to_string(), Err(e) => format!("err:{}", err_kind(&e)) }
+                    }
+                    "prm.clear" => { rm.clear(); "ok".to_string() }
+                    "prm.has" => { let d = dom_opt(f[3]); bool_s(rm.has_link(&unesc(f[1]), &unesc(f[2]), d.as_deref())).to_string() }
+                    "prm.roles" => { let d = dom_opt(f[2]); enc_list(&sorted(rm.get_roles(&unesc(f[1]), d.as_deref()))) }
+                    "prm.users" => { let d = dom_opt(f[2]); enc_list(&sorted(rm.get_users(&unesc(f[1]), d.as_deref()))) }
+                    _ => {
+                        let names = dec_list(f[1]);
+                        let doms: Vec<Option<String>> = f[2].split(',').map(dom_opt).collect();
+                        let mut bits = String::new();
+                        for d in &doms { for a in &names { for b in &names { bits.push(if rm.has_link(a, b, d.as_deref()) { 't' } else { 'f' }); } } }
+                        bits
+                    }
+                });
+                r.unwrap_or_else(|| "panic".into())
             }
             "rm.new" => {
                 self.rm = Some(DefaultRoleManager::new(f[1].parse().unwrap()));
